@@ -3,7 +3,7 @@
    order; loops (bookmark re-reading, add_to_context / remove_from_context as coded),
    blocks, include_if, omit_content.  Definitions only.
 
-   A row has two templated cells, in column order: include_if, then the main argument
+   A row has two templated cells: include_if (evaluated first, see inst_row_incl), then the main argument
    (message_text).  Everything else in a row is literal.  The model threads an EVENT LOG:
    [EvRow i templ]   parse_next_row returned row i, templ = not omit_templating
    [EvRender txt]    the template engine was invoked on cell text txt (only cells with '{')
@@ -119,6 +119,31 @@ Definition inst_row (octx : option ctx) (r : srow) (log : list event)
     end
   end.
 
+(* SheetParser.parse_next_row with include_column = "include_if": the inclusion cell is
+   evaluated FIRST; when its string form is "false" the row is parsed without templating
+   (context None) with the inclusion cell replaced by the literal "false", so that the other
+   cells of an excluded row are never handed to the template engine.  Otherwise the row is
+   parsed as before (the inclusion cell is then rendered a second time by parse_row). *)
+Definition cell_false : cell := CTmpl [NText ((* false *) [102; 97; 108; 115; 101])].
+
+Definition inst_row_incl (octx : option ctx) (r : srow) (log : list event)
+  : list event * result terr (bool * mainval) :=
+  match octx with
+  | None => inst_row None r log
+  | Some _ =>
+    let log0 := log_render octx (r_inc r) log in
+    match parse_as_string_m penv pnat octx (r_inc r) with
+    | Err e => (log0, Err e)
+    | Ok pi =>
+      match to_text pi with
+      | Err e => (log0, Err e)
+      | Ok s => if str_eqb (lower (strip s)) ((* false *) [102; 97; 108; 115; 101])
+                then inst_row None (mk_srow (rk r) cell_false (r_main r)) log0
+                else inst_row octx r log0
+      end
+    end
+  end.
+
 Inductive endres := EndYes | EndNo | EndErr.
 Definition end_check (bt : btype) (k : rkind) : endres :=
   match k, bt with
@@ -139,7 +164,7 @@ Fixpoint parse_block (fuel : nat) (bt : btype) (omit : bool) (pos : nat) (cx : c
     match nth_error rows pos with
     | None => match bt with BRoot => (log, Ok (pos, cx)) | _ => (log, Err EBlock) end
     | Some r =>
-      match inst_row (if omit then None else Some cx) r (log ++ [EvRow pos (negb omit)]) with
+      match inst_row_incl (if omit then None else Some cx) r (log ++ [EvRow pos (negb omit)]) with
       | (log2, Err e) => (log2, Err e)
       | (log2, Ok (inc, mv)) =>
         match end_check bt (rk r) with
